@@ -314,3 +314,26 @@ func (p *parser) on_s(as []Tok, x *XNode, y *YNode, zs []*ZNode, end Tok) any {
 `, "type aliases"),
 	}
 }
+
+// RejectedLayouts: Go sides on which lox must fail with a diagnostic (C06's
+// verdict clause on concrete cases: not solver-decided, reported as a
+// precondition).
+func RejectedLayouts() []*Custom {
+	lox := "@lexer\nNUM = [0-9]+\nPLUS = '+'\n\n@parser\n@start s = num\nnum = NUM\n    | PLUS NUM\n"
+	head := "package PKG\n\ntype Token struct{ Kind int }\n\ntype parser struct{ lox }\n\n"
+	mk := func(name, body, note string) *Custom {
+		return &Custom{Name: name, Lox: lox, ParserGo: head + body, Note: note}
+	}
+	ok := "func (p *parser) on_s(n int) any { return nil }\nfunc (p *parser) on_num(n Token) int { return 0 }\nfunc (p *parser) on_num__neg(_ Token, n Token) int { return 0 }\n"
+	return []*Custom{
+		mk("V-ok", ok, "control: complete and unambiguous (must be accepted)"),
+		mk("V-orphan-last", ok+"func (p *parser) on_num__old(a, b, c Token) int { return 0 }\n", "an on_ method matching no production, declared last"),
+		mk("V-orphan-first", "func (p *parser) on_num__a_old(a, b, c Token) int { return 0 }\n"+ok, "an on_ method matching no production, declared first"),
+		mk("V-missing", "func (p *parser) on_s(n int) any { return nil }\nfunc (p *parser) on_num(n Token) int { return 0 }\n", "production PLUS NUM has no action"),
+		mk("V-ambiguous", ok+"func (p *parser) on_num__any(n any) int { return 0 }\n", "two methods accept production NUM"),
+		mk("V-returns", "func (p *parser) on_s(n int) any { return nil }\nfunc (p *parser) on_num(n Token) int { return 0 }\nfunc (p *parser) on_num__neg(_ Token, n Token) string { return \"\" }\n", "methods of one rule return different types"),
+		mk("V-paramtype", "func (p *parser) on_s(n string) any { return nil }\nfunc (p *parser) on_num(n Token) int { return 0 }\nfunc (p *parser) on_num__neg(_ Token, n Token) int { return 0 }\n", "parameter type does not accept the rule's type"),
+		mk("V-norule", ok+"func (p *parser) on_ghost(n Token) int { return 0 }\n", "method for a rule that does not exist"),
+		mk("V-tworesults", "func (p *parser) on_s(n int) (any, error) { return nil, nil }\nfunc (p *parser) on_num(n Token) int { return 0 }\nfunc (p *parser) on_num__neg(_ Token, n Token) int { return 0 }\n", "action returns two values"),
+	}
+}
